@@ -982,6 +982,67 @@ func (c *Ctx) ruleDerefLoop() {
 			}
 		}
 	}
+	// type and value advance together: each Type.Elem() is followed, with no branch in between,
+	// by a Value.Elem() and the other way round - a nil pointer must not leave the pair out of
+	// step (the pointee type with the pointer value makes every later Convert panic and a typed
+	// nil pointer to a Stack look like a Stack)
+	var tEl, vEl []*ssa.Call
+	for _, b := range fn.Blocks {
+		for _, in := range b.Instrs {
+			call, ok := in.(*ssa.Call)
+			if !ok {
+				continue
+			}
+			if call.Call.IsInvoke() && call.Call.Method.Name() == "Elem" {
+				tEl = append(tEl, call)
+			} else if cal := c.p.callee(&call.Call); cal != nil && (cal.String() == "(reflect.Value).Elem" || cal.String() == "reflect.Indirect") {
+				vEl = append(vEl, call)
+			}
+		}
+	}
+	straight := func(from *ssa.Call, to []*ssa.Call) bool {
+		b := from.Block()
+		for hops := 0; hops < 8; hops++ {
+			for _, t := range to {
+				if t.Block() == b {
+					return true
+				}
+			}
+			if len(b.Succs) != 1 || len(b.Succs[0].Preds) != 1 {
+				return false
+			}
+			b = b.Succs[0]
+		}
+		return false
+	}
+	straightBack := func(from *ssa.Call, to []*ssa.Call) bool {
+		b := from.Block()
+		for hops := 0; hops < 8; hops++ {
+			for _, t := range to {
+				if t.Block() == b {
+					return true
+				}
+			}
+			if len(b.Preds) != 1 || len(b.Preds[0].Succs) != 1 {
+				return false
+			}
+			b = b.Preds[0]
+		}
+		return false
+	}
+	for _, te := range tEl {
+		if !straight(te, vEl) && !straightBack(te, vEl) {
+			problems = append(problems, c.p.instrPos(te)+": the type is advanced without the value being advanced on the same straight-line path (type and value can get out of step on a nil pointer)")
+		}
+	}
+	for _, ve := range vEl {
+		if !straight(ve, tEl) && !straightBack(ve, tEl) {
+			problems = append(problems, c.p.instrPos(ve)+": the value is advanced without the type being advanced on the same straight-line path")
+		}
+	}
+	if len(tEl) == 0 || len(vEl) == 0 {
+		problems = append(problems, "no Type.Elem / Value.Elem pair found")
+	}
 	if len(problems) == 0 {
 		rep.ok("R-COVER", "derefPtr", "pointers followed to the end", pos, "the loop ends only on a non-pointer type, a non-pointer value or a nil pointer")
 	} else {
